@@ -48,10 +48,15 @@ def gen_config(rng):
                 break
         # alias: the handler object has already been looked at / registered elsewhere under its own function name before it is
         # registered here under an overriding name (1: in another router, 2: its method_signature() was read)
-        methods.append({"name": "m%d" % m, "cfg": cfg, "nargs": rng.choice([0, 0, 1]), "alias": rng.choice([0, 0, 0, 1, 2])})
+        # via: add_method_handler with a MethodConfig, or the @router.method decorator with one keyword per allowed OnCompletion
+        # (documented defaults: no keyword at all = NoOp calls only; any keyword given = everything not mentioned is NEVER)
+        methods.append({"name": "m%d" % m, "cfg": cfg, "nargs": rng.choice([0, 0, 1]), "alias": rng.choice([0, 0, 0, 1, 2]),
+                        "via": rng.choice(["handler", "handler", "decorator", "decorator_explicit_never"])})
     kinds = {}
     for tag in ["B_" + oc for oc in OCS] + ["CLEAR"] + ["M_" + m["name"] for m in methods]:
         kinds[tag] = rng.choice(["expr", "expr_approve", "sub", "abisub"])
+        if not tag.startswith("M_") and rng.random() < .2:
+            kinds[tag] = rng.choice(["expr_cond_mixed", "expr_if_mixed"])  # the call is made by the creator (see check_config)
     # the same Python action object registered for several OnCompletions (with their own CallConfigs), also as clear_state
     share = {}
     active = [oc for oc in OCS if bare[oc] != "NEVER"]
@@ -69,6 +74,11 @@ def build_router(pt, cfg):
 
     def mk_action(tag):
         k = kinds[tag]
+        if k == "expr_cond_mixed":
+            # taken arm logs and falls out of the Cond (the router has to approve afterwards); the last arm exits by itself
+            return pt.Cond([pt.Txn.sender() == pt.Global.creator_address(), pt.Log(pt.Bytes(tag))], [pt.Int(1), pt.Reject()])
+        if k == "expr_if_mixed":
+            return pt.If(pt.Txn.sender() == pt.Global.creator_address()).Then(pt.Log(pt.Bytes(tag))).Else(pt.Reject())
         if k == "expr":
             return pt.Log(pt.Bytes(tag))
         if k == "expr_approve":
@@ -115,7 +125,16 @@ def build_router(pt, cfg):
         f = mk_method(name, m["nargs"])
         sig = name + ("()void" if m["nargs"] == 0 else "(uint64)void")
         mc = pt.MethodConfig(**{oc: getattr(CCs, cc) for oc, cc in m["cfg"].items()})
-        if m.get("alias"):
+        if m.get("via", "handler").startswith("decorator"):
+            only_noop_call = all((cc == "CALL") if oc == "no_op" else (cc == "NEVER") for oc, cc in m["cfg"].items())
+            if m["via"] == "decorator" and only_noop_call and mi % 2 == 0:
+                kw = {}  # the bare decorator
+            elif m["via"] == "decorator":
+                kw = {oc: getattr(CCs, cc) for oc, cc in m["cfg"].items() if cc != "NEVER"}
+            else:
+                kw = {oc: getattr(CCs, cc) for oc, cc in m["cfg"].items()}
+            r.method(f, **kw) if kw else r.method(f)
+        elif m.get("alias"):
             f.__name__ = "orig_" + name
             hdl = pt.ABIReturnSubroutine(f)
             if m["alias"] == 1:
@@ -167,8 +186,9 @@ def check_config(pt, acc, cfg, only_call=None):
             call = {"selector": n, "oc": oc, "create": create, "extra": extra, "version": v}
             if only_call is not None and call != only_call:
                 continue
+            # (the sender is the application's creator: actions of the mixed-exit kinds log on that path and reject otherwise)
             ctx = avm.Ctx(group=[{"ApplicationArgs": args, "OnCompletion": OCNUM[oc], "ApplicationID": 0 if create else 77,
-                                  "TypeEnum": 6}], app_id=0 if create else 77)
+                                  "TypeEnum": 6, "Sender": b"C" * 32}], app_id=0 if create else 77)
             try:
                 res = avm.run(P, ctx)
             except (avm.Unsupported, avm.Timeout) as e:
@@ -193,8 +213,18 @@ def check_config(pt, acc, cfg, only_call=None):
                                  res.status, res.error, res.logs))
             else:
                 acc.counters["handler_ran_ok" if exp else "rejected_ok"] += 1
+            if sel is None and exp and cfg["kinds"].get(exp[0], "").endswith("_mixed") and got == exp:
+                # the same bare call from somebody else takes the action's exiting arm: rejected, and nothing else runs
+                ctx2 = avm.Ctx(group=[{"ApplicationArgs": args, "OnCompletion": OCNUM[oc], "ApplicationID": 0 if create else 77,
+                                       "TypeEnum": 6, "Sender": b"S" * 32}], app_id=0 if create else 77)
+                r2 = avm.run(P, ctx2)
+                acc.evaluations += 1
+                if r2.status == "approve" or r2.logs:
+                    acc.violation("dispatch_mismatch", {"config": cfg, "call": dict(call, sender="stranger")}, "bare action %s rejects for a stranger, program: status=%s logs=%r" % (exp[0], r2.status, r2.logs))
+                else:
+                    acc.counters["mixed_exit_action_ok"] += 1
         if only_call is None or only_call.get("clear"):
-            res = avm.run(C, avm.Ctx(group=[{"OnCompletion": 3, "ApplicationID": 77, "TypeEnum": 6}]))
+            res = avm.run(C, avm.Ctx(group=[{"OnCompletion": 3, "ApplicationID": 77, "TypeEnum": 6, "Sender": b"C" * 32}]))
             acc.evaluations += 1
             exp = ["CLEAR"] if cfg["clear"] else None
             got = [l.decode("latin-1") for l in res.logs] if res.status == "approve" else None
